@@ -525,6 +525,7 @@ theorem edit_blob (k : Disk) (name data : Bytes) : (edit k name data).1.blob = k
 
 def noChunk : Op → Bool
   | .chunk .. => false
+  | .session .. => false
   | _ => true
 
 theorem linkZ_blob_eq (hash : Bytes → Digest) (zc fixed : Bool) (k : Disk) (name : Bytes) (d : Digest) :
@@ -646,6 +647,7 @@ theorem stepOp_blobOK (hash : Bytes → Digest) (fixed zc : Bool) (k : Disk) (op
     simp only [stepOp] at hf
     rw [edit_blob] at hf
     exact h d' f hf
+  | session d size puts => cases hn
 
 /-- **Every history.**  Starting from a disk whose blob files are each empty or correct (in particular the
     empty disk), after ANY sequence of Put / Import / Get / Link / Unlink / Resolve with arbitrary — faulty —
@@ -827,6 +829,7 @@ theorem history_manifests_confined (hash : Bytes → Digest) (fixed zc : Bool) :
           · split <;> exact h
     | chunk d size a b cd s => exact h
     | putNeg d s => exact h
+    | session d size puts => exact h
     | edit name data =>
       simp only [stepOp, edit]
       cases hp : nameToPath name with
